@@ -260,13 +260,14 @@ def judge(run, result):
             if got != ["ovrd"]:
                 bad("C14/header-override-missing-or-altered", f"X-Key = {got[:3]}")
         if "set_cookie" in settings and label in DECLARES["cookie:sid"]:
-            jar = SimpleCookie()
+            got = None
+            values = []
             for raw in header_values(r, "Cookie"):
-                try:
-                    jar.load(raw)
-                except Exception:
-                    pass
-            got = jar["sid"].value if "sid" in jar else None
+                for part in raw.split(";"):
+                    name, _, value = part.strip().partition("=")
+                    if name == "sid":
+                        values.append(value)
+            got = values[0] if len(values) == 1 else (None if not values else values)
             if got != "abcd":
                 bad("C14/cookie-override-missing-or-altered", f"sid = {got!r} (Cookie: {header_values(r, 'Cookie')[:1]})")
         if "set_path" in settings and label in DECLARES["path:id"]:
